@@ -1,8 +1,10 @@
 use crate::obl::Obl;
+pub mod c08;
 pub mod c14;
 
 pub fn all() -> Vec<Obl> {
     let mut l = Vec::new();
+    c08::register(&mut l);
     c14::register(&mut l);
     l
 }
